@@ -56,8 +56,8 @@ theorem min_2dw_u (c : PkCfg) (hc : UnalignedCfg c) (h2 : 2 ≤ c.W) : min (2 * 
 /-- Source data in UNALIGNED-DATA-COPY on the first copy beat. -/
 theorem pkUData_first (c : PkCfg) (hc : UnalignedCfg c) (st : PkSt) (sr cnt dd : Nat) (dl : Bool) (d : Nat) :
     c.pkUData { st := st, sr := sr, count := cnt, fromIdle := true, dData := dd, dLast := dl } d =
-      ubeat c (c.srFrom ((if c.W == 1 then 1 else 2) * c.dw) sr) (if dl then 0 else d) := by
-  cases dl <;> simp [PkCfg.pkUData, max_l c hc, ubeat]
+      ubeat c (c.srFrom ((if c.W == 1 then 1 else 2) * c.dw) sr) d := by
+  simp [PkCfg.pkUData, max_l c hc, ubeat]
 
 /-- … and on the following ones. -/
 theorem pkUData_next (c : PkCfg) (hc : UnalignedCfg c) (st : PkSt) (sr cnt dd : Nat) (dl : Bool) (d : Nat) :
